@@ -1,4 +1,5 @@
 use std::collections::HashSet;
+use std::rc::Rc;
 
 use itertools::Itertools;
 use serde::{Deserialize, Serialize, Serializer};
@@ -54,6 +55,19 @@ pub struct NodeWrapper {
 
 impl NodeWrapper {
     fn from(node: &CfgNode, cfg: &Cfg) -> Self {
+        // The functions of a node are a hash set: list them in the order of
+        // their entries, so that the same graph always gives the same dump.
+        let index_of = |wanted: &Rc<CfgNode>| {
+            cfg.iter()
+                .position(|other| wanted.id() == other.id())
+                .unwrap()
+        };
+        let mut funcs = node
+            .functions()
+            .iter()
+            .map(|func| (index_of(&func.entry()), index_of(&func.exit())))
+            .collect::<Vec<_>>();
+        funcs.sort_unstable();
         NodeWrapper {
             node: node.node(),
             labels: node
@@ -61,24 +75,8 @@ impl NodeWrapper {
                 .iter()
                 .map(std::string::ToString::to_string)
                 .collect(),
-            func_entry: node
-                .functions()
-                .iter()
-                .map(|func| {
-                    cfg.iter()
-                        .position(|other| func.entry().id() == other.id())
-                        .unwrap()
-                })
-                .collect::<Vec<_>>(),
-            func_exit: node
-                .functions()
-                .iter()
-                .map(|func| {
-                    cfg.iter()
-                        .position(|other| func.exit().id() == other.id())
-                        .unwrap()
-                })
-                .collect::<Vec<_>>(),
+            func_entry: funcs.iter().map(|x| x.0).collect(),
+            func_exit: funcs.iter().map(|x| x.1).collect(),
             nexts: node
                 .nexts()
                 .iter()
